@@ -33,14 +33,22 @@ def _body(cs, n, susp, j, k):
     # child 0 is closed early after j items (j == 0: never closed early; j > n: never reached)
     close_after = [j if (i == 0 and P("J", 0)) else 0 for i in range(C)]
 
+    inside = [0]
+
     async def consumer(i):
         child = kids[i]
         while True:
+            inside[0] += 1
             try:
                 item = await child.__anext__()
             except StopAsyncIteration:
                 ended[i] = "stop"
                 break
+            finally:
+                inside[0] -= 1
+            if lock is not None and lock.held and inside[0] == 0:
+                # nobody is advancing a child, yet the lock is still taken
+                W.bad("tee:lock-held-while-no-child-is-being-advanced")
             results[i].append(item)
             for _ in range(pause):
                 await Suspend(W)
@@ -143,6 +151,7 @@ def jobs(tier):
         # one consumer cancelled at its k-th suspension
         add(C=2, N=2, SUSP=1, lock=True, pause=0, K=4, fl=fl)
         add(C=2, N=2, SUSP=0, lock=False, pause=1, K=3, fl=fl)
+        add(C=2, N=(1 if q else 2), SUSP=1, lock=True, pause=1, K=4, fl=fl)
     if not q:
         add(C=4, N=1, SUSP=1, lock=True, pause=0, fl="acls")
         add(C=4, N=1, SUSP=0, lock=False, pause=1, fl="acls")
